@@ -137,6 +137,8 @@ namespace gmgpolar_verif {
 struct Access {
     static const SparseMatrixCSR<double>& csr(const DirectSolverGiveCustomLU& s) { return s.solver_matrix_; }
     static const SparseMatrixCSR<double>& csr(const DirectSolverTakeCustomLU& s) { return s.solver_matrix_; }
+    // K-rhs (C02): the private right-hand-side discretisation of setup()
+    static void discretize(GMGPolar& s, const Level& l, Vector<double>& v) { s.discretize_rhs_f(l, v); }
     // the task functions of the parallel regions (K-footprint, C11)
     template <class S> static void ac(S& s, int i, SmootherColor c, const Vector<double>& x, const Vector<double>& rhs, Vector<double>& t) { s.applyAscOrthoCircleSection(i, c, x, rhs, t); }
     template <class S> static void ar(S& s, int i, SmootherColor c, const Vector<double>& x, const Vector<double>& rhs, Vector<double>& t) { s.applyAscOrthoRadialSection(i, c, x, rhs, t); }
